@@ -258,6 +258,15 @@ impl<T> LogMutex<T> {
 }
 
 
+// ------------------------------------------------------------------ abstract notification slot (L-notify, U-META)
+/// abstract notification slot: a flag (result present / item present / closed) and a stored waker
+pub ghost struct Slot2 { pub flag: bool, pub waker: Option<int> }
+/// publisher section (contracts of signal / Signaller::drop / push / close / PipeStream::drop): set flag, take waker
+pub open spec fn publish(s: Slot2) -> (Slot2, Option<int>) { (Slot2 { flag: true, waker: None }, s.waker) }
+/// subscriber section (contracts of poll / poll_next / full-check / register_only_if_open): see flag, else store waker
+pub open spec fn subscribe(s: Slot2, w: int) -> (Slot2, bool) { if s.flag { (s, true) } else { (Slot2 { waker: Some(w), ..s }, false) } }
+
+
 // ------------------------------------------------------------------ jobs and user code (A5)
 
 pub struct Context { pub waker: Waker }
